@@ -178,9 +178,9 @@ inductive Region where
   | cppIncludes
   /-- C++: directly in the body of the top-level function whose head contains `anchor` -/
   | inFunction (anchor : String)
-  /-- C++: member-initialiser list of the constructor `ctor` after the base class `base(...)`,
-      before the opening brace -/
-  | ctorInit (ctor : String) (base : String)
+  /-- C++: member-initialiser list of the constructor of class `ctor`: after `ctor::ctor(…) : base(…)`
+      (all parentheses closed), right before the opening brace of the body -/
+  | ctorInit (ctor : String)
   /-- C++: directly in the body of `class cls`, after a `private:` label -/
   | classPrivate (cls : String)
   /-- CMake: among the arguments of command `cmd` that follow keyword `kw` -/
@@ -198,11 +198,11 @@ def regionOk (r : Region) (before after : Str) : Bool :=
   | .inFunction anchor =>
     let st := cppScan {} before
     st.mode == .code && st.depth == 1 && subOf anchor.toList st.openHead.reverse
-  | .ctorInit ctor base =>
+  | .ctorInit ctor =>
     let st := cppScan {} before
     let h := st.head.reverse
     st.mode == .code && st.depth == 0 && subOf (ctor ++ "::" ++ ctor ++ "(").toList h &&
-      subOf ("):" ++ base ++ "(").toList h && st.head.head? == some ')' &&
+      subOf "):".toList h && st.head.head? == some ')' &&
       h.count '(' == h.count ')' && (trimL after).head? == some '{'
   | .classPrivate cls =>
     let st := cppScan {} before
@@ -305,7 +305,7 @@ def atlasDocs : List FileDoc :=
   [ { file := "query.cxx"
       slots :=
         [ includeSlot "body_include_files",
-          { xs := "instance_initialization", preCore := [','], region := .ctorInit "query" "EL::AnaAlgorithm" },
+          { xs := "instance_initialization", preCore := [','], region := .ctorInit "query" },
           { xs := "ctor_lines", region := .inFunction "query::query(" },
           { xs := "book_code", region := .inFunction "query::initialize()" },
           { xs := "initialize_lines", region := .inFunction "query::initialize()" },
